@@ -71,6 +71,12 @@ func verifSameBytes(a, b []byte, n int) bool {
 
 type verifC12Cfg struct {
 	writable bool
+	// blindSteps > 0: whether the cursor of the buffer under test is observed
+	// after a step is itself a decision. Observing it takes a Seek(0,
+	// SeekCurrent) on the buffer, i.e. an extra operation of the history, and
+	// an implementation may treat Seek as a synchronisation point; histories
+	// without that call between two operations must be covered as well.
+	blindSteps int
 }
 
 // verifC12Step applies one symbolic operation to both objects and compares
@@ -80,9 +86,36 @@ func verifC12Step(sut, ref verifBuf, cfg verifC12Cfg, maxLen, maxOff int) {
 	if cfg.writable {
 		nops = 6
 	}
+	shape := verifAnyShape
+	if cfg.blindSteps > 0 && verif.Choice("observe_cursor", 2) == 0 {
+		shape |= verifNoCursor
+	}
+	verifC12Op(sut, ref, verif.Choice("op", nops), shape, maxLen, maxOff)
+}
+
+const (
+	verifOpRead    = 0
+	verifOpWriteAt = 5
+
+	verifAnyShape = 0 // no restriction on the operation's arguments
+	verifGrow     = 1 // WriteAt ending beyond the current end (the buffer has to grow)
+	verifInPlace  = 2 // non-empty WriteAt entirely inside the written extent
+	verifShapes   = 3 // mask
+
+	// verifNoCursor: do not ask the buffer under test for its cursor after the
+	// operation (that is a Seek call on it); the cursor is then checked by the
+	// next observation and through the bytes later Reads return.
+	verifNoCursor = 4
+)
+
+// verifC12Op applies operation `op` (lengths, offsets, bytes unknown) to both
+// objects and compares the results. shape restricts a WriteAt (see above).
+func verifC12Op(sut, ref verifBuf, op int, shape int, maxLen, maxOff int) {
+	noCursor := shape&verifNoCursor != 0
+	shape &= verifShapes
 	size := ref.Size()
 	pos := verifPos(ref)
-	switch verif.Choice("op", nops) {
+	switch op {
 	case 0: // Read
 		n := verif.Len("rlen", 0, maxLen)
 		p1, p2 := make([]byte, n), make([]byte, n)
@@ -136,17 +169,36 @@ func verifC12Step(sut, ref verifBuf, cfg verifC12Cfg, maxLen, maxOff int) {
 	case 5: // WriteAt
 		n := verif.Len("walen", 0, maxLen)
 		off := int64(verif.Len("waoff", -1, maxOff))
+		switch shape {
+		case verifGrow:
+			verif.Assume(n > 0)
+			verif.Assume(off >= 0)
+			verif.Assume(off+int64(n) > size)
+			verif.Cover("writeat-appends-at-end", off == size)
+			verif.Cover("writeat-grows-overlapping", off < size)
+		case verifInPlace:
+			verif.Assume(n > 0)
+			verif.Assume(off >= 0)
+			verif.Assume(off+int64(n) <= size)
+			verif.Cover("writeat-in-place-ahead-of-cursor", off >= pos)
+		}
 		p := verif.Bytes("wadata", n)
 		w := sut.(verifBufW)
 		n1, _ := w.WriteAt(p, off)
 		n2, _ := ref.(verifBufW).WriteAt(p, off)
-		verif.Cover("writeat-leaves-gap", verif.And(n > 0, off > size))
-		verif.Cover("empty-writeat-beyond-end", verif.And(n == 0, off > size))
-		verif.Cover("writeat-negative", off < 0)
+		if shape != verifInPlace {
+			verif.Cover("writeat-leaves-gap", verif.And(n > 0, off > size))
+		}
+		if shape == verifAnyShape {
+			verif.Cover("empty-writeat-beyond-end", verif.And(n == 0, off > size))
+			verif.Cover("writeat-negative", off < 0)
+		}
 		verif.Assert("writeat-count", n1 == n2)
 	}
 	verif.Assert("size", sut.Size() == ref.Size())
-	verif.Assert("offset", verifPos(sut) == verifPos(ref))
+	if !noCursor {
+		verif.Assert("offset", verifPos(sut) == verifPos(ref))
+	}
 }
 
 // verifC12Contents compares the complete contents (gap bytes included).
@@ -167,6 +219,7 @@ func verifC12Run(sut, ref verifBuf, cfg verifC12Cfg, k, maxLen, maxOff int) {
 	for i := 0; i < k; i++ {
 		verifC12Step(sut, ref, cfg, maxLen, maxOff)
 	}
+	verif.Assert("final-offset", verifPos(sut) == verifPos(ref))
 	verifC12Contents(sut, ref)
 }
 
@@ -176,7 +229,8 @@ func verifC12Run(sut, ref verifBuf, cfg verifC12Cfg, k, maxLen, maxOff int) {
 // as created by NewBufferReadWriter, k operations.
 func VerifBufferReadWriterVsOSFile() {
 	c := verif.Len("capacity", 0, verif.Bound("capacity", 2, 3))
-	verifC12Run(base.NewBufferReadWriter(uint64(c)), verifRefFile(nil), verifC12Cfg{writable: true},
+	verifC12Run(base.NewBufferReadWriter(uint64(c)), verifRefFile(nil),
+		verifC12Cfg{writable: true, blindSteps: verif.Bound("cursor_observation_optional", 0, 1)},
 		verif.Bound("ops", 2, 3), verif.Bound("len", 2, 2), verif.Bound("off", 3, 3))
 }
 
@@ -209,6 +263,54 @@ func VerifBufferReadWriterStep() {
 	_, err = ref.Seek(int64(off), io.SeekStart)
 	verif.Assert("ref-seek", err == nil)
 	verifC12Run(sut, ref, verifC12Cfg{writable: true}, 1, verif.Bound("len", 2, 3), verif.Bound("off", 5, 7))
+}
+
+// VerifBufferReadWriterReadGrowRead: histories of length 3 and 4 of the shape
+//
+//	Read, WriteAt ending beyond the current end, [WriteAt inside the extent,] Read
+//
+// with NO Seek or Write in between (the harness does not ask the buffer for
+// its cursor between these operations either: that would be a Seek), from an arbitrary state (content bytes
+// symbolic; content length, capacity, cursor case-split as in the step
+// harness). This is the interleaving in which a sequential reader that keeps
+// anything derived from the buffer between calls (a slice header, a length, a
+// bytes.Reader) goes stale: the positional write grows the extent, with spare
+// capacity in place and without it by reallocation, and an OS file read after
+// pwrite sees the new length and the new bytes. The optional third operation
+// overwrites bytes that the last Read may return (stale backing array after a
+// reallocation). In the thorough tier one more arbitrary operation follows.
+func VerifBufferReadWriterReadGrowRead() {
+	maxContent := verif.Bound("content", 2, 4)
+	n := verif.Len("content_len", 0, maxContent)
+	c := verif.Len("capacity", 0, n+verif.Bound("spare", 2, 3))
+	off := verif.Len("start_offset", 0, n)
+	content := verif.Bytes("content", n)
+	sut := base.NewBufferReadWriter(uint64(c))
+	ref := verifRefFile(content)
+	if n > 0 {
+		_, err := sut.WriteAt(content, 0)
+		verif.Assert("sut-prefill", err == nil)
+	}
+	_, err := sut.Seek(int64(off), io.SeekStart)
+	verif.Assert("sut-seek", err == nil)
+	_, err = ref.Seek(int64(off), io.SeekStart)
+	verif.Assert("ref-seek", err == nil)
+
+	maxLen := verif.Bound("len", 2, 3)
+	maxOff := verif.Bound("off", 4, 6)
+	verifC12Op(sut, ref, verifOpRead, verifAnyShape|verifNoCursor, maxLen, maxOff)
+	verifC12Op(sut, ref, verifOpWriteAt, verifGrow|verifNoCursor, maxLen, maxOff)
+	if verif.Choice("overwrite", 2) == 1 {
+		verifC12Op(sut, ref, verifOpWriteAt, verifInPlace|verifNoCursor, verif.Bound("overwrite_len", 1, 2), maxOff)
+	}
+	sizeBefore, posBefore := ref.Size(), verifPos(ref)
+	verif.Cover("cursor-before-new-end", posBefore < sizeBefore)
+	verifC12Op(sut, ref, verifOpRead, verifAnyShape, maxLen+1, maxOff)
+	verif.Cover("last-read-moved-cursor", verifPos(ref) > posBefore)
+	for i := 0; i < verif.Bound("tail", 0, 1); i++ {
+		verifC12Step(sut, ref, verifC12Cfg{writable: true}, maxLen, maxOff)
+	}
+	verifC12Contents(sut, ref)
 }
 
 // VerifBufferFileReaderVsOSFile: store.NewBufferFileReader over symbolic
